@@ -159,6 +159,43 @@ func ruleGlobals(p *Prog, r *Result) {
 			}
 		}
 	}
+	// package-level variables whose type is shared mutable state by construction (pools, concurrent maps,
+	// atomics, channels): whatever is cached or queued there outlives one evaluation
+	for _, sp := range p.SSAPkg {
+		if sp.Pkg == nil || !isRepoPkgPath(sp.Pkg.Path()) {
+			continue
+		}
+		for _, name := range sortedKeys(sp.Members) {
+			g, ok := sp.Members[name].(*ssa.Global)
+			if !ok {
+				continue
+			}
+			if isSyncPool(g.Type().(*types.Pointer).Elem()) {
+				continue // decided by C09.pool: what is taken from the pool must not outlive the call
+			}
+			if why := sharedStateType(g.Type().(*types.Pointer).Elem(), 0); why != "" {
+				nwrites++
+				r.Fail("C09.global", fmt.Sprintf("%s / package variable %s holds %s", shortPkg(sp.Pkg.Path()), g.Name(), why), p.Pos(g.Pos()),
+					"process-wide mutable state: what one evaluation leaves there (a recycled buffer, a cached value) is visible to the next or to a concurrent one, so results depend on what else ran in the process")
+			}
+		}
+	}
+	// the address of a repo variable handed to code outside the repository (pointer-receiver methods of library types)
+	for _, cs := range allCalls(p.Funcs) {
+		if isInitFunc(cs.Fn) || cs.Callee == nil || p.InRepo(cs.Callee) {
+			continue
+		}
+		for _, a := range cs.Instr.Common().Args {
+			if g := addressOfGlobal(a); p.isRepoGlobal(g) {
+				if isSyncPool(g.Type().(*types.Pointer).Elem()) {
+					continue // C09.pool
+				}
+				nwrites++
+				r.Fail("C09.global", fmt.Sprintf("%s / address of package variable %s passed to %s", p.FuncName(cs.Fn), g.Name(), cs.Name), p.InstrPos(cs.Instr),
+					"code outside the repository receives a pointer to package-level state and may change it at any call")
+			}
+		}
+	}
 	// address of a repo global escaping to a callee that may write it
 	own := p.Own()
 	for _, cs := range allCalls(p.Funcs) {
@@ -468,3 +505,51 @@ func sortedKeys[M ~map[string]V, V any](m M) []string {
 }
 
 var _ = types.Typ
+
+// addressOfGlobal: v is &global or the address of a part of it (not a value loaded from it).
+func addressOfGlobal(v ssa.Value) *ssa.Global {
+	switch x := v.(type) {
+	case *ssa.Global:
+		return x
+	case *ssa.FieldAddr:
+		return addressOfGlobal(x.X)
+	case *ssa.IndexAddr:
+		return addressOfGlobal(x.X)
+	}
+	return nil
+}
+
+// sharedStateType: t is, or contains by value, a type that exists to be mutated by several users.
+func sharedStateType(t types.Type, depth int) string {
+	if depth > 4 {
+		return ""
+	}
+	if nm, ok := t.(*types.Named); ok && nm.Obj().Pkg() != nil {
+		switch nm.Obj().Pkg().Path() {
+		case "sync":
+			switch nm.Obj().Name() {
+			case "Pool", "Map":
+				return "a sync." + nm.Obj().Name()
+			}
+		case "sync/atomic":
+			return "an atomic." + nm.Obj().Name()
+		}
+	}
+	switch u := t.Underlying().(type) {
+	case *types.Chan:
+		return "a channel"
+	case *types.Struct:
+		for i := 0; i < u.NumFields(); i++ {
+			if why := sharedStateType(u.Field(i).Type(), depth+1); why != "" {
+				return why + " (field " + u.Field(i).Name() + ")"
+			}
+		}
+	case *types.Array:
+		return sharedStateType(u.Elem(), depth+1)
+	case *types.Pointer:
+		if depth == 0 {
+			return sharedStateType(u.Elem(), depth+1)
+		}
+	}
+	return ""
+}
